@@ -566,9 +566,16 @@ Proof.
   destruct (get_file_record s p) eqn:E; auto. apply modify_record_good; auto.
   eapply get_file_record_trackable; eauto.
 Qed.
-Lemma sorted_records_trackable s l a : In a (sort_recs (get_records s l)) -> trackable (fst a) = true.
+Lemma dedup_recs_In x l : In x (dedup_recs l) -> In x l.
 Proof.
-  intros H. apply (proj1 (sort_recs_In _ _)) in H. apply get_records_In in H. destruct H as [H _].
+  induction l as [|a r IH]; cbn [dedup_recs]; [tauto|].
+  destruct (existsb _ r); intros H; [right; auto|].
+  destruct H as [H|H]; [left; exact H | right; auto].
+Qed.
+
+Lemma sorted_records_trackable s l a : In a (sort_recs (dedup_recs (get_records s l))) -> trackable (fst a) = true.
+Proof.
+  intros H. apply (proj1 (sort_recs_In _ _)) in H. apply dedup_recs_In in H. apply get_records_In in H. destruct H as [H _].
   eapply get_file_record_trackable; eauto.
 Qed.
 Lemma add_files_good s l b : Good c s -> Good c (add_files c s l b).
@@ -1233,9 +1240,9 @@ Proof.
   destruct (get_file_record s p) as [sz|] eqn:E; auto.
   destruct (gfr_ok s p sz (proj1 (proj2 S)) E) as (A1 & A2 & A3). apply modify_record_safe; auto.
 Qed.
-Lemma sorted_records_ok s l a : BdD (disk s) -> In a (sort_recs (get_records s l)) -> RecOk a.
+Lemma sorted_records_ok s l a : BdD (disk s) -> In a (sort_recs (dedup_recs (get_records s l))) -> RecOk a.
 Proof.
-  intros B H. apply (proj1 (sort_recs_In _ _)) in H. apply get_records_In in H. destruct H as [H _].
+  intros B H. apply (proj1 (sort_recs_In _ _)) in H. apply dedup_recs_In in H. apply get_records_In in H. destruct H as [H _].
   destruct a as [p sz]. eapply gfr_ok; eauto.
 Qed.
 Lemma add_files_safe s l b : Safe s -> Safe (add_files c s l b).
@@ -1582,8 +1589,8 @@ Proof.
   destruct (get_file_record s p); [|apply reach_same; auto].
   apply (reach_weaken (eq p)); [intros x <-; apply H; simpl; auto | apply modify_record_reach].
 Qed.
-Lemma sorted_records_from s l a : In a (sort_recs (get_records s l)) -> In (fst a) l.
-Proof. intros H. apply (proj1 (sort_recs_In _ _)) in H. apply get_records_In in H. tauto. Qed.
+Lemma sorted_records_from s l a : In a (sort_recs (dedup_recs (get_records s l))) -> In (fst a) l.
+Proof. intros H. apply (proj1 (sort_recs_In _ _)) in H. apply dedup_recs_In in H. apply get_records_In in H. tauto. Qed.
 Lemma add_files_reach (Q : path -> Prop) s l b : (forall p, In p l -> Q p) -> Reach Q s (add_files c s l b).
 Proof.
   intros H. unfold add_files. destruct b; [|apply add_lazy_reach; auto].
